@@ -1,6 +1,7 @@
 package main
 
 import (
+	"syscall"
 	"bytes"
 	"fmt"
 	stdslog "log/slog"
@@ -68,6 +69,17 @@ func c08side(c *Ctx) {
 			}
 			w1 := mon.New(log, "W1", shape)
 			w1.Core().Fail = func(att int, p []byte) (bool, int) { return att%3 != 0, len(p) / 2 }
+			// what the failing destination says: a plain error, "try again" (EAGAIN: an error that calls itself temporary),
+			// a wrapped "interrupted" - whatever it says, every destination of the list is handed a record ONCE
+			w1.Core().Err = func(att int) error {
+				switch att % 3 {
+				case 1:
+					return syscall.EAGAIN
+				case 2:
+					return fmt.Errorf("write /var/log/side.log: %w", syscall.EINTR)
+				}
+				return nil
+			}
 			we := mon.New(log, "W1E", shape) // the failing logger's diagnostics go here
 			w1b := mon.New(log, "W1B", mon.ShapePlain)
 			l1 := newRoot("side1", f, w1, slog.AlwaysLevel)
